@@ -214,7 +214,7 @@ func zzRichCtxN(nslots int) (OmegaInput, *Registers) {
 }
 
 // ZZ_C10_checkpoint: after `checkpoint`, one arbitrary state-changing host call on the working
-// context x (write, delete, solicit, forget, transfer, new, upgrade, eject, yield, or a
+// context x (write, delete, solicit, forget, transfer, new, upgrade, eject, yield, assign, or a
 // write/read/forget that consumes an entry of the raw key-value pool, with
 // arbitrary register arguments around valid inputs) leaves every leaf reachable from the
 // checkpoint y (account infos, storage, lookup records, preimages, transfers, yielded hash,
@@ -223,6 +223,9 @@ func zzRichCtxN(nslots int) (OmegaInput, *Registers) {
 func ZZ_C10_checkpoint() {
 	zzWithRawPool = true
 	defer func() { zzWithRawPool = false }()
+	prevAssigns := zzCallerAssigns
+	zzCallerAssigns = true // the caller is the assigner of core 0 (case 12)
+	defer func() { zzCallerAssigns = prevAssigns }()
 	in, regs := zzRichCtx()
 	in.VM.Memory.Pages[16].Value[66] = 'p' // key of the pooled storage entry
 	in.VM.Memory.Pages[16].Value[160] = 9  // hash of the pooled lookup record (9,0,0,...)
@@ -236,7 +239,7 @@ func ZZ_C10_checkpoint() {
 	snapX := zzSnapCtx(in.Addition.ResultContextX)
 	snapY.sameAs(in.Addition.ResultContextX, "checkpoint-copies-the-working-context")
 	_ = snapX
-	call := zzvt.Range("call", 0, 11)
+	call := zzvt.Range("call", 0, 12)
 	var res OmegaOutput
 	switch call {
 	case 0: // write a value
@@ -279,8 +282,14 @@ func ZZ_C10_checkpoint() {
 	case 11: // forget the lookup record that lives only in the raw pool
 		regs[7], regs[8] = zzGuestBase+160, 3
 		res = forget(in)
+	case 12: // hand core 0 to another assigner and replace its authorizer queue
+		regs[7], regs[8], regs[9] = 0, zzGuestBase+300, 77
+		res = assign(in)
 	}
 	zzvt.Assert(res.ExitReason == ExitContinue, "mutating-call-returns")
+	if call == 12 {
+		zzvt.Assert(regs[7] == OK && res.Addition.ResultContextX.PartialState.Assign[0] == 77, "assign-took-place")
+	}
 	if regs[7] == OK || call <= 1 || call == 5 {
 		zzvt.Cover("mutation-took-place")
 	}
